@@ -704,9 +704,54 @@ def gen_tx(rng, mdib, counter):
                 steps.append({'do': 'remove', 'handle': rng.choice(added)})
             elif channels and rng.random() < 0.3:
                 steps.append({'do': 'remove', 'handle': rng.choice(channels)})
+        if rng.random() < 0.35:
+            _add_commit_fault(rng, mdib, steps, conds, signals, metrics, ctxd, counter, systems)
         tx = {'tx': 'descriptor', 'steps': steps}
     tx['abort'] = abort
     return tx
+
+
+def _add_commit_fault(rng, mdib, steps, conds, signals, metrics, ctxd, counter, systems):
+    """Append a step that makes the commit of this descriptor transaction fail *after* it has started to apply the
+    updates (everything an application can provoke through the transaction API), behind at least one update of an
+    indexed attribute. The table lookups must agree with a scan afterwards, whatever else the failed commit leaves."""
+    upd = [s for s in steps if s['do'] == 'update' and (s['handle'] in conds or s['handle'] in signals)]
+    if not upd and (conds or signals):
+        h = rng.choice(conds + signals)
+        if h in conds:
+            upd = [{'do': 'update', 'handle': h, 'set': {'Source': rng.sample(metrics, min(len(metrics), rng.randint(0, 2)))}}]
+        else:
+            upd = [{'do': 'update', 'handle': h, 'set': {'ConditionSignaled': rng.choice([*conds, None])}}]
+        if any(s.get('handle') == h for s in steps):
+            return
+        steps.insert(0, upd[0])
+    if not upd:
+        return
+    h = upd[0]['handle']
+    with_state = [x.DescriptorHandle for x in mdib.states.objects if x.DescriptorHandle != h]
+    other_ctx = [(st.Handle, st.DescriptorHandle) for st in mdib.context_states.objects]
+    kinds = ['add_state_existing', 'rehandle_state', 'rename_added']
+    if other_ctx and len(ctxd) > 1:
+        kinds.append('ctx_collision')
+    k = rng.choice(kinds)
+    if k == 'add_state_existing':
+        # add_state instead of get_state for a descriptor that has a state: the state table refuses it at commit time
+        steps.append({'do': 'add_state_existing', 'handle': h})
+    elif k == 'rehandle_state' and with_state:
+        # the state handed out by get_state gets the DescriptorHandle of another state
+        steps.append({'do': 'rehandle_state', 'handle': h, 'to': rng.choice(sorted(with_state))})
+    elif k == 'rename_added' and systems:
+        # a new descriptor whose Handle is changed to an existing one after add_descriptor
+        counter[0] += 1
+        steps.append({'do': 'add', 'kind': 'AlertConditionDescriptor', 'handle': f'verif.{counter[0]}', 'parent': rng.choice(systems),
+                      'with_state': rng.random() < 0.5, 'adjust': True, 'set': {'Source': []},
+                      'rename_to': rng.choice(conds + signals + metrics)})
+    elif k == 'ctx_collision':
+        sh, dh = rng.choice(sorted(other_ctx))
+        others = [d for d in ctxd if d != dh]
+        if others:
+            # a context state written under one context descriptor with the Handle of a state of another one
+            steps.append({'do': 'ctx_collision', 'descriptor': rng.choice(others), 'state_handle': sh})
 
 
 class _Abort(Exception):
@@ -717,6 +762,7 @@ def run_tx(mdib, tx):
     """execute one transaction script on the real provider mdib; exceptions of the API are part of the history"""
     from sdc11073.xml_types import pm_qnames as q
     from sdc11073.xml_types import pm_types
+    STAGE[0] = None
     try:
         kind = tx['tx']
         if kind in ('metric', 'alert', 'component', 'operational', 'rt'):
@@ -778,19 +824,37 @@ def run_tx(mdib, tx):
                         dc.Type = pm_types.CodedValue('5678')
                         st = mdib.data_model.mk_state_container(dc) if s['with_state'] else None
                         tr.add_descriptor(dc, adjust_descriptor_version=s.get('adjust', True), state_container=st)
+                        if s.get('rename_to'):
+                            dc.Handle = s['rename_to']
                     elif s['do'] == 'remove':
                         tr.remove_descriptor(s['handle'])
+                    elif s['do'] == 'add_state_existing':
+                        dc = tr.actual_descriptor(s['handle'])
+                        tr.add_state(mdib.data_model.mk_state_container(dc))
+                    elif s['do'] == 'rehandle_state':
+                        st = tr.get_state(s['handle'])
+                        st.DescriptorHandle = s['to']
+                    elif s['do'] == 'ctx_collision':
+                        entity = mdib.entities.by_handle(s['descriptor'])
+                        entity.descriptor = copy.deepcopy(entity.descriptor)
+                        other = copy.deepcopy(mdib.context_states.handle.get_one(s['state_handle']))
+                        other.DescriptorHandle = s['descriptor']
+                        entity.states = {k: copy.deepcopy(v) for k, v in entity.states.items()}
+                        entity.states[other.Handle] = other
+                        tr.write_entity(entity)
                 if tx['abort']:
                     raise _Abort
+                STAGE[0] = 'commit'
         return 'ok'
     except _Abort:
         return 'abort'
     except Exception as ex:  # noqa: BLE001
         LAST_ERROR[0] = traceback.format_exc()
-        return 'err ' + type(ex).__name__
+        return ('err-in-commit ' if STAGE[0] == 'commit' else 'err ') + type(ex).__name__
 
 
 LAST_ERROR = [None]
+STAGE = [None]       # 'commit' once the body of a descriptor transaction is through: an exception after that comes from the commit
 
 
 def _mdib_findings(mdib, side):
@@ -818,9 +882,9 @@ def run_provider_part(ctx):
                 ctx.count(f'provider-tx:{tx["tx"]}:{res}')
                 if tx['tx'] == 'descriptor':
                     for s in tx['steps']:
-                        ctx.count('provider-descr-step:' + s['do'] + (':' + ','.join(sorted(s.get('set', {}))) if s.get('set') else ''))
+                        ctx.count('provider-descr-step:' + s['do'] + (':' + ','.join(sorted(s.get('set', {}))) if s.get('set') else '') + (':renamed' if s.get('rename_to') else ''))
                 probs = _mdib_findings(mdib, 'provider')
-                ctx.case({'file': fi, 'rep': rep, 'n': len(script), 'tx': tx}, nontrivial=res == 'ok',
+                ctx.case({'file': fi, 'rep': rep, 'n': len(script), 'tx': tx}, nontrivial=res == 'ok' or res.startswith('err-in-commit'),
                          sample={'file': os.path.basename(path), 'tx': tx, 'result': res, 'table_problems': [p for _, p in probs]} if (fi, rep, len(script)) == (0, 0, 3) else None)
                 if probs:
                     ctx.fail(probs[0][0], '; '.join(p for _, p in probs[:4]), {'kind': 'provider', 'file': path, 'txs': list(script)})
